@@ -152,6 +152,7 @@ type stopSignal struct{}
 
 type world struct {
 	mu      sync.Mutex // the controllers issue calls from several goroutines
+	delMu   sync.Mutex // makes read-then-delete of a pod atomic
 	t       *testing.T
 	scheme  *runtime.Scheme
 	c       client.Client // intercepted
@@ -371,10 +372,22 @@ func (w *world) build(objs []client.Object) {
 			}
 			// A real API server does not compare resourceVersions on an unconditional DELETE; the fake
 			// client does when a finalizer turns the deletion into an update, so delete a fresh copy.
+			// Deletions of one sync run in parallel; read-then-delete is made atomic so that deleting the same
+			// pod twice behaves as on a real API server (the second call finds it terminating: no conflict).
 			if _, isPod := obj.(*corev1.Pod); isPod {
+				w.delMu.Lock()
+				defer w.delMu.Unlock()
 				cur := &corev1.Pod{}
 				if gerr := c.Get(ctx, client.ObjectKeyFromObject(obj), cur); gerr == nil {
 					obj = cur
+					if cur.DeletionTimestamp != nil {
+						w.afterWrite()
+						if fail {
+							return errInjected
+						}
+
+						return nil
+					}
 				}
 			}
 			err := c.Delete(ctx, obj, opts...)
